@@ -116,6 +116,8 @@ let check_game (line:string) : unit =
                 if int_of_n (rep_count p0 !moves) >= 3 then saw_rep := true;
                 if int_of_n (clock p0 !moves) >= 100 then saw_fifty := true end
             end;
+            if res_after <> !prev_res then bump ("game_result_" ^ res_after);
+            if op = "d" && ret then bump "game_declared";
             prev_res := res_after
           end) (tokens f1);
     (* current position = start advanced by the accepted moves *)
